@@ -7,7 +7,7 @@ use libc::siginfo_t;
 use std::os::unix::io::RawFd;
 use std::sync::atomic::{AtomicBool, AtomicPtr, Ordering};
 
-#[path = "/verif/kani/libc_model.rs"]
+#[path = "libc_model.rs"]
 mod lm;
 
 // ---- a self-pipe end with a known descriptor --------------------------------------------------
